@@ -45,6 +45,10 @@ type TableSpec struct {
 	Billing    string      `json:"billing,omitempty"` // "PAY_PER_REQUEST", "PROVISIONED", ""
 	Throughput bool        `json:"throughput,omitempty"`
 	Indexes    []IndexSpec `json:"indexes,omitempty"`
+	// RawKeySchema: when set, the KeySchema of the CreateTable request is exactly these (attribute, key type)
+	// elements - schemas no well-formed request has (two HASH elements, unknown key types ...); every attribute
+	// named is declared as a string unless Hash / Range declare it
+	RawKeySchema [][2]string `json:"rawkeyschema,omitempty"`
 }
 
 func typ(t string) string {
